@@ -1630,7 +1630,89 @@ unsafe fn error_text_sweep(ctx: &mut Ctx, max: usize) {
     haystack_value_destroy(time);
 }
 
+/// Dates at the edge of what a Date can hold (chrono's range is about +-262,000 years), combined with every sign of
+/// zone offset: every call must come back, with a value or with the failure sentinel and an error message; none may
+/// take the process down (local time = UTC + offset can leave the representable range).
+unsafe fn extreme_dates(ctx: &mut Ctx) {
+    let years = [-262_143i32, -262_142, -262_141, -10_000, -1, 0, 1, 9_999, 10_000, 262_141, 262_142, 262_143];
+    let zones = ["UTC", "Tokyo", "New_York", "Kiritimati", "Pago_Pago", "Kolkata", "London"];
+    let mut calls = 0u64;
+    for y in years {
+        for (mo, d) in [(1u32, 1u32), (12, 31), (6, 15)] {
+            let Some(date) = haystack_value_make_date(y, mo, d) else {
+                let _ = take_err();
+                continue;
+            };
+            let date = Box::into_raw(date);
+            for (h, mi) in [(0u32, 0u32), (0, 30), (12, 0), (23, 30), (23, 59)] {
+                let time = own(haystack_value_make_time(h, mi, 59));
+                for z in zones {
+                    let cz = cstr(z);
+                    ctx.eval("extreme-dates", crate::prng::mix(&[y as u64, mo as u64, h as u64, mi as u64, crate::prng::hash_str(z)]), true);
+                    // (the progress marker names the step, so that a death is attributable to one call)
+                    let trace = std::env::var("HSV_TRACE").is_ok();
+                    if trace {
+                        eprintln!("extreme-dates: make {y}-{mo}-{d} {h}:{mi} {z}");
+                    }
+                    let dt = if z == "UTC" { haystack_value_make_utc_datetime(date, time) } else { haystack_value_make_tz_datetime(date, time, cz.as_ptr()) };
+                    calls += 1;
+                    let Some(dt) = dt else {
+                        if take_err().is_none() {
+                            ctx.violation("capi:extreme-dates:make_datetime:failure-without-error-message", &format!("year {y} {z}: constructor failed without an error message"), json!({}));
+                        }
+                        continue;
+                    };
+                    let dt = Box::into_raw(dt);
+                    for utc in [false, true] {
+                        let out = Box::into_raw(haystack_value_init());
+                        for which in 0..2 {
+                            if trace {
+                                eprintln!("extreme-dates: getter {which} utc={utc}");
+                            }
+                            let r = if which == 0 { haystack_value_get_datetime_date(dt, utc, out) } else { haystack_value_get_datetime_time(dt, utc, out) };
+                            calls += 1;
+                            let e = take_err();
+                            if (r == ResultType::ERR) != e.is_some() || r == ResultType::FALSE {
+                                ctx.violation("capi:extreme-dates:getter:sentinel-and-message-disagree", &format!("year {y} {z} utc={utc}: returned {r:?}, error message {e:?}"), json!({}));
+                            }
+                        }
+                        haystack_value_destroy(out);
+                    }
+                    if trace {
+                        eprintln!("extreme-dates: timezone / to_zinc / to_json");
+                    }
+                    for which in 0..3 {
+                        // (one call at a time: each failing call must leave its own message)
+                        let p = match which {
+                            0 => haystack_value_get_datetime_timezone(dt),
+                            1 => haystack_value_to_zinc_string(dt),
+                            _ => haystack_value_to_json_string(dt),
+                        };
+                        calls += 1;
+                        if p.is_null() {
+                            if take_err().is_none() {
+                                ctx.violation("capi:extreme-dates:string:failure-without-error-message", &format!("year {y} {z}: a string getter/encoder failed without an error message"), json!({}));
+                            }
+                        } else {
+                            haystack_string_destroy(p as *mut c_char);
+                        }
+                    }
+                    haystack_value_destroy(dt);
+                }
+                haystack_value_destroy(time);
+            }
+            haystack_value_destroy(date);
+        }
+    }
+    ctx.evaluations += calls;
+    ctx.note_add("extreme_date_calls", calls);
+}
+
 pub fn run(ctx: &mut Ctx, c18: bool) {
+    if ctx.shard == 1 % ctx.nshards && !cfg!(miri) && ctx.begin("extreme-dates", 0) {
+        unsafe { extreme_dates(ctx) };
+        ctx.stratum("extreme-dates-completed");
+    }
     // failing calls with long / non-ASCII quoted input (shard 0 only: deterministic)
     if ctx.shard == 0 && ctx.begin("error-text", 0) {
         // (phases run at a reduced scale - the quick sanitizer phase - sweep a shorter range)
